@@ -1,6 +1,8 @@
 package rules
 
 import (
+	"go/token"
+	"go/types"
 	"strings"
 
 	"golang.org/x/tools/go/ssa"
@@ -77,4 +79,161 @@ func checkEncoderLoopsProductive(c *core.Ctx, rule string, encoders []*ssa.Funct
 		}
 	}
 	return n
+}
+
+// checkCountNamesCollection: a `Write…(len(Z))` count prefix that is followed by a
+// loop over the elements of S must count S itself.  Decided only where both Z
+// and S are slice-typed fields loaded from a struct (the copy/paste slip "count
+// of the signatures written before the list of keys"); a count taken from a map
+// whose sorted key list is then emitted is a different value by construction and
+// is covered by the collecting-loop rule.  Returns the number of (count, loop)
+// pairs compared.
+func checkCountNamesCollection(c *core.Ctx, rule string, encoders []*ssa.Function) int {
+	lenOf := func(v ssa.Value) ssa.Value {
+		for d := 0; d < 4; d++ {
+			if cv, ok := v.(*ssa.Convert); ok {
+				v = cv.X
+				continue
+			}
+			break
+		}
+		cl, ok := v.(*ssa.Call)
+		if !ok {
+			return nil
+		}
+		if bi, isB := cl.Common().Value.(*ssa.Builtin); !isB || bi.Name() != "len" {
+			return nil
+		}
+		return cl.Common().Args[0]
+	}
+	n := 0
+	for _, fn := range encoders {
+		if fn.Parent() != nil || len(fn.Blocks) == 0 {
+			continue
+		}
+		for _, cd := range ir.Conds(fn) {
+			b, ok := cd.V.(*ssa.BinOp)
+			if !ok || b.Op != token.LSS {
+				continue
+			}
+			s := lenOf(b.Y)
+			if s == nil {
+				continue
+			}
+			if _, isSlice := s.Type().Underlying().(*types.Slice); !isSlice {
+				continue
+			}
+			_, sField, okS := fieldLoad(s)
+			if !okS {
+				continue
+			}
+			hdr := cd.If.Block()
+			// walk back from the loop's entry edge through unique predecessors
+			var pre *ssa.BasicBlock
+			for _, p := range hdr.Preds {
+				if !reachesBlk(hdr.Succs[cd.TrueIdx()], p) {
+					pre = p
+				}
+			}
+			var count ssa.Value
+			var site ssa.Instruction
+			for hops := 0; pre != nil && hops < 4 && count == nil; hops++ {
+				for i := len(pre.Instrs) - 1; i >= 0 && count == nil; i-- {
+					ci, isC := pre.Instrs[i].(ssa.CallInstruction)
+					if !isC {
+						continue
+					}
+					name := ""
+					if o := ir.CalleeObj(ci); o != nil {
+						name = o.Name()
+					}
+					if !strings.HasPrefix(name, "Write") {
+						continue
+					}
+					for _, a := range ci.Common().Args {
+						if z := lenOf(a); z != nil {
+							count, site = z, ci
+						}
+					}
+					if count == nil {
+						// another write in between: the loop is not directly preceded by a count
+						pre = nil
+						break
+					}
+				}
+				if pre != nil && count == nil {
+					if len(pre.Preds) == 1 {
+						pre = pre.Preds[0]
+					} else {
+						pre = nil
+					}
+				}
+			}
+			if count == nil {
+				continue
+			}
+			if _, isSlice := count.Type().Underlying().(*types.Slice); !isSlice {
+				continue
+			}
+			_, zField, okZ := fieldLoad(count)
+			if !okZ {
+				continue
+			}
+			n++
+			c.Decide(zField == sField && (sameValue(count, s) || sameAccessPath(count, s)), rule, fn, "the count written before the loop over ."+sField+" is len(."+sField+")", c.P.Rel(site.Pos()),
+				"the prefix counts ."+zField+" but the elements that follow are those of ."+sField+": the decoder reads a different number of elements than were written")
+		}
+	}
+	return n
+}
+
+func reachesBlk(from, to *ssa.BasicBlock) bool {
+	seen := map[*ssa.BasicBlock]bool{}
+	work := []*ssa.BasicBlock{from}
+	for len(work) > 0 {
+		b := work[len(work)-1]
+		work = work[:len(work)-1]
+		if b == to {
+			return true
+		}
+		if seen[b] {
+			continue
+		}
+		seen[b] = true
+		work = append(work, b.Succs...)
+	}
+	return false
+}
+
+// sameAccessPath: two values are loads along the same chain of field selections
+// from the same root (parameter, spilled receiver, allocation).
+func sameAccessPath(a, b ssa.Value) bool {
+	walk := func(v ssa.Value) (ssa.Value, string) {
+		path := ""
+		for d := 0; d < 12; d++ {
+			switch x := v.(type) {
+			case *ssa.UnOp:
+				if x.Op != token.MUL {
+					return v, path
+				}
+				v = x.X
+				path = "*" + path
+			case *ssa.FieldAddr:
+				path = "." + fieldNameOf(x) + path
+				v = x.X
+			case *ssa.Field:
+				st, _ := x.X.Type().Underlying().(*types.Struct)
+				if st != nil {
+					path = "." + st.Field(x.Field).Name() + path
+				}
+				v = x.X
+			default:
+				return v, path
+			}
+		}
+		return v, path
+	}
+	ra, pa := walk(a)
+	rb, pb := walk(b)
+	return ra == rb && pa == pb && pa != ""
 }
